@@ -4,6 +4,7 @@ From stdpp Require Import gmap.
 From Coq Require Import NArith.
 From Synnax Require Import Aspen.Membership Aspen.MembershipProofs Aspen.MembershipConv
   Monitors.Mon_C12 Aspen.MembershipMonitor.
+From Synnax Require Aspen.VersionSrc.
 Local Open Scope N_scope.
 
 (* (1) No step of any kind — exchange, tick, state change, restart — and no sequence of
@@ -109,3 +110,14 @@ Proof.
   split; [repeat constructor; eexists _, _; reflexivity|].
   vm_compute. auto.
 Qed.
+
+(* ---- tie to the source by translation: the heartbeat order and the heartbeat updates of the model are EQUAL to the
+   Gallina that translator/go2coq regenerates from x/go/version/heartbeat.go on every run (Generated/Src_Version.v):
+   OlderThan / YoungerThan for all heartbeats, Increment / Restart as long as the uint32 fields do not wrap. *)
+Theorem C12_heartbeat_from_source :
+  (forall h o, VersionSrc.S.Heartbeat_OlderThan (VersionSrc.src h) (VersionSrc.src o) = older h o) /\
+  (forall h o, VersionSrc.S.Heartbeat_YoungerThan (VersionSrc.src h) (VersionSrc.src o) = younger h o) /\
+  (forall h, (ver h + 1 < 2 ^ 32)%N -> VersionSrc.S.Heartbeat_Increment (VersionSrc.src h) = VersionSrc.src (hb_incr h)) /\
+  (forall h, (gen h + 1 < 2 ^ 32)%N -> VersionSrc.S.Heartbeat_Restart (VersionSrc.src h) = VersionSrc.src (hb_restart h)).
+Proof. exact VersionSrc.version_from_source. Qed.
+Print Assumptions C12_heartbeat_from_source.
